@@ -138,6 +138,9 @@ class World:
 
     # locals that hold wall-clock readings (never influence control flow)
     ignore_locals: frozenset = frozenset()
+    # dead loop variables of library frames whose value depends on set iteration order
+    # (address-hashed Task objects); they are reassigned before any further use
+    ignore_locals_in: Dict[str, frozenset] = {"_wait": frozenset({"f"})}
 
     def __init__(self) -> None:
         self.loop = VLoop()
@@ -364,7 +367,9 @@ class World:
                     tuple(
                         (k, self.abs_val(loc[k], 1))
                         for k in sorted(loc)
-                        if k != "__class__" and k not in self.ignore_locals
+                        if k != "__class__"
+                        and k not in self.ignore_locals
+                        and k not in self.ignore_locals_in.get(frame.f_code.co_name, ())
                     ),
                 ),
             )
